@@ -526,6 +526,9 @@ func writeCaseFile(path, property, check string, caseJSON []byte, vs []Violation
 
 var marginFactor = 1
 
+// OnMargin is called with the new factor whenever the margin factor changes (lets packages that cannot import vh scale their own waits).
+var OnMargin func(factor int)
+
 // Margin scales a wall-clock margin; it is 4x while a timing-dependent violation is being confirmed.
 func Margin(d time.Duration) time.Duration { return d * time.Duration(marginFactor) }
 
@@ -545,8 +548,14 @@ func (d *Def[C]) confirm(c C, res Result) Result {
 		return res
 	}
 	marginFactor = 4
+	if OnMargin != nil {
+		OnMargin(4)
+	}
 	res2 := d.safeRun(c)
 	marginFactor = 1
+	if OnMargin != nil {
+		OnMargin(1)
+	}
 	if len(res2.Violations) == 0 {
 		Extra(d.Property, d.check(), "timing_retry_passed", 1)
 		res2.Labels = append(res2.Labels, "needed-timing-retry")
